@@ -8,7 +8,7 @@ mr=/var/tmp/mutrepo-$sid-$$
 rm -rf $mr; mkdir -p $mr
 rsync -a --exclude /target --exclude .git /repo/ $mr/
 pf=/verif/seeded/$sid/patch.diff; [ -f /verif/seeded/$sid/patch_rebased.diff ] && pf=/verif/seeded/$sid/patch_rebased.diff
-( cd $mr && git apply $pf ) || { echo "[$sid] patch does not apply to the current tree"; rm -rf $mr; exit 9; }
+( cd $mr && ( git apply $pf 2>/dev/null || patch -p1 -F3 -s < $pf ) ) || { echo "[$sid] patch does not apply to the current tree"; rm -rf $mr; exit 9; }
 out=$(VERIF_REPO=$mr ./check $prop --tier $tier --no-evidence "$@" 2>/tmp/run_on_mutant.$sid.err); rc=$?
 rm -rf $mr
 echo "$out"
